@@ -3189,8 +3189,22 @@ namespace awkward {
 
               count_instructions_++;
               if (single_step) {
-                if (is_segment_done()) {
-                  bytecodes_pointer_pop();
+                // As after_end_of_segment in a full run: leave the word's own
+                // segment, whether or not it has instructions left.
+                bytecodes_pointer_pop();
+                if (do_current_depth_ != 0  &&
+                    do_abs_recursion_depth() == recursion_current_depth_) {
+                  // End one step of a 'do ... loop' or a 'do ... +loop'.
+                  if (do_loop_is_step()) {
+                    if (stack_cannot_pop()) {
+                      current_error_ = util::ForthError::stack_underflow;
+                      return;
+                    }
+                    do_i() += stack_pop();
+                  }
+                  else {
+                    do_i()++;
+                  }
                 }
                 return;
               }
@@ -3816,6 +3830,23 @@ namespace awkward {
         if (single_step) {
           if (is_segment_done()) {
             bytecodes_pointer_pop();
+
+            // As after_end_of_segment in a full run: finishing the body of a
+            // 'do' loop advances the loop.
+            if (do_current_depth_ != 0  &&
+                do_abs_recursion_depth() == recursion_current_depth_) {
+              // End one step of a 'do ... loop' or a 'do ... +loop'.
+              if (do_loop_is_step()) {
+                if (stack_cannot_pop()) {
+                  current_error_ = util::ForthError::stack_underflow;
+                  return;
+                }
+                do_i() += stack_pop();
+              }
+              else {
+                do_i()++;
+              }
+            }
           }
           return;
         }
